@@ -101,7 +101,7 @@ theorem io_ndarray (dt : DType) (n : Nat) (d : Bytes) (md : Val) :
     (∃ node, construct "Output" [("output_type", .arr dt [n] d), ("metadata", md)] = .ok node ∧
       node.inputType = typeDict "input" (.arr dt [n] d) ∧ node.outputType = typeDict "output" (.arr dt [n] d)) := by
   constructor <;>
-  · simp [construct, Generated.classFields, lookup, bindKwargs, hasKey, postInit, parseShapeArgument, getItem,
+  · simp [construct, Generated.classFields, lookup, bindKwargs, bindAll, bindOne, hasKey, postInit, parseShapeArgument, getItem,
       typeDict, bind, Except.bind, pure, Except.pure, List.mapM_cons, List.mapM_nil, Node.inputType, Node.outputType]
 
 theorem mapM_asInt_ints (s : List Nat) :
@@ -129,7 +129,7 @@ theorem io_sequence (s : List Nat) (hs : s ≠ []) (asTuple : Bool) :
   have h1 := mapM_asInt_ints s
   have h2 := all_isInt s
   cases asTuple <;> constructor <;>
-  · simp [construct, Generated.classFields, lookup, bindKwargs, hasKey, postInit, parseShapeArgument, getItem,
+  · simp [construct, Generated.classFields, lookup, bindKwargs, bindAll, bindOne, hasKey, postInit, parseShapeArgument, getItem,
       typeDict, bind, Except.bind, pure, Except.pure, List.mapM_cons, List.mapM_nil, Node.inputType, Node.outputType,
       h1, h2, shapeArray, hs, Declares, Val.ofInts]
 
